@@ -2,6 +2,13 @@
 FIELD_TB = ["section hypothesis field_theory (theorems hold for every field; the executable instance is Z mod p, Base/Zp.v)"]
 
 PROPS = {
+    "C10": {
+        "cmd": "c10",
+        "timeout": 900,
+        "trusted_base": ["the Go scheduler and memory model below the modelled atomic steps (Reset / blueprint Solve / append) are not modelled; free-running goroutine runs are observations",
+                         "the lookup blueprint is driven through its exported Reset/Solve methods by stub solvers (harness/c10.go), sequentially, following seeded interleavings"],
+        "assumptions": ["data races below the modelled steps would need the race detector (not part of the quick check)"],
+    },
     "C11": {
         "cmd": "c11",
         "timeout": 900,
